@@ -566,7 +566,13 @@ def _check_api(ctx, case, answers):
             prefix = build_pipe(concat(src[:k + 1]), case["pipe"])
             got = canon_result(t, impl["results"][k])
             if len(prefix) == 0:
-                ctx.count("oracle:no-row-prefix")        # pandas on nothing: sum 0, count 0, size 0, mean / var / std NaN, empty tables
+                # the property statement claims equality "whenever that concatenation has at least one row": observed and compared with
+                # the model (correspondence), but no oracle claim here - C07 / C11, whose statements include empty first batches, judge it
+                ctx.count("oracle:no-row-prefix")
+                if isinstance(got, tuple):
+                    ctx.count("oracle:no-row-prefix:" + got[0] + ":" + str(got[1]))
+                history.append(None)
+                continue
             if nf and opposite_infinities(prefix, t):
                 # +inf and -inf meet in one reduction: pandas' own answer is the ill-defined inf - inf; no claim
                 ctx.count("nonfinite:no-claim:opposite-infinities")
@@ -834,9 +840,9 @@ def _check_direct(ctx, case, answers):
                 countless_now = True
             else:
                 countless_now = False
-            if not failed:
-                # (a prefix / window without rows included: pandas on nothing gives sum 0, count 0, size 0, mean / var NaN, empty tables)
-                want = direct_pandas(name, ddof, [frames[j] for j in held] or [frames[0].iloc[:0]])
+            if rows > 0 and not failed:
+                # (no oracle claim on a prefix without rows: the property statement exempts it; the model comparison below covers it)
+                want = direct_pandas(name, ddof, [frames[j] for j in held])
                 # after on_old a group key may remain with size 0: compare on pandas' keys only
                 if isinstance(got, dict) and any(o[0] == "old" for o in case["ops"][:i + 1]):
                     got_cmp = {k: v for k, v in got.items() if k in want}
@@ -2198,8 +2204,9 @@ def run(ctx):
         "the synchronous diamond zip of map_partitions pairs the k-th emission of each operand (C01); one aggregation per graph",
         "Series results are compared as finite maps key -> value (index order canonicalised)",
         "Frame has no plain .var()/.std(): var/std over the whole history are reached through Frame.aggregate(Var(ddof)) ** 0.5 and through sdf.expanding().var()/std()",
-        "prefixes without any row are judged like every other prefix (pandas on nothing: sum 0, count 0, size 0, mean / var / std NaN, empty tables); "
-        "Var used to raise ZeroDivisionError there on a single column (repaired in /repo 445f1a7; the model no longer has that outcome)",
+        "prefixes without any row: the property statement exempts them ('whenever that concatenation has at least one row'), so the oracle makes no "
+        "claim there; the model is compared all the same (since the repair of Var in /repo 445f1a7 - a defect under C07 / C11, whose statements "
+        "include empty first batches - model and code give NaN there, the raising outcome is gone from the model)",
         "statement programs (kind 'prog'): `sdf[c] = expr` is executed IN PLACE (streamz rebinds sdf.stream / sdf.example) at different "
         "points relative to the creation of derived objects; oracle = pandas executing the same statements in the same order on the "
         "concatenated prefix. Convention (where pandas and the unchanged streamz agree): a groupby OBJECT refers to its frame, so an "
